@@ -463,6 +463,33 @@ def c20_driver(ctx):
                     res["nontrivial"] += 1
             if mode == "missing" and rc == 0:
                 res["oracle_fail"].append(("missing-name-but-exit0", "set%d %s %s: explicit missing name without --skip-errors exited 0" % (si, ver, comp)))
+        # second generation over an existing output directory: same names, same lengths, different bytes. An exit-0 extract
+        # must leave the CURRENT archive's bytes there (stale files of the right length are not "complete output")
+        gen2 = {n: (bytes((b ^ 0xFF) for b in d), c) for n, (d, c) in files.items()}
+        src2 = os.path.join(sdir, "src2")
+        os.makedirs(src2)
+        add2 = []
+        for n, (d, c) in gen2.items():
+            open(os.path.join(src2, n), "wb").write(d)
+            add2 += ["-a", os.path.join(src2, n)]
+        arch2 = os.path.join(sdir, "t2.mpq")
+        rc, so, se = run(["mpq", "create", arch2, "--version", ver, "--compression", comp, "--with-listfile"] + add2)
+        if rc == 0:
+            outd = os.path.join(sdir, "out-all")
+            rc, so, se = run(["mpq", "extract", arch2, "-o", outd, "--threads", str(1 + rng.below(4))])
+            res["evals"] += 1
+            bump("c20.extract.over-existing.exit%d" % rc)
+            model_reqs.append(("c20exit extract 0 1 %d 0 0" % len(gen2), str(rc)))
+            for n, (data, cls) in gen2.items():
+                pth = os.path.join(outd, n)
+                got = open(pth, "rb").read() if os.path.isfile(pth) else None
+                if rc == 0 and got != data:
+                    multi_raw = len(data) > 4096 and (cls == 0 or comp == "none")
+                    tag = "create-extract-differs-multisector-raw" if multi_raw else "exit0-but-output-incomplete-or-different"
+                    res["oracle_fail"].append((tag, "set%d %s %s re-extract over existing output: %s (%d bytes) -> %s" % (
+                        si, ver, comp, n, len(data), "missing" if got is None else ("stale first-generation bytes" if got == files[n][0] else "%d bytes differ" % len(got)))))
+                elif rc == 0 and len(data) > 0:
+                    res["nontrivial"] += 1
         # validate: intact archive -> 0; with a file's data destroyed -> non-zero
         rc, so, se = run(["mpq", "validate", arch])
         res["evals"] += 1
@@ -484,6 +511,49 @@ def c20_driver(ctx):
             bump("c20.validate.corrupt.exit%d" % rc2)
             if said_failed and rc2 == 0:
                 res["oracle_fail"].append(("validate-reports-failure-but-exit0", "set%d %s %s: stdout says failed, exit 0: %s" % (si, ver, comp, so2.strip()[-120:])))
+    # ---- A2. --preserve-paths: nested names are recreated, an entry that cannot be placed inside the output directory is a
+    #          failed extraction (non-zero exit unless --skip-errors), and nothing is written outside
+    for pi, ver in enumerate(versions if tier != "quick" else ["v1", "v3"]):
+        pdir = os.path.join(root, "pp%d" % pi)
+        src = os.path.join(pdir, "src")
+        os.makedirs(src)
+        pfiles = {"ok.txt": b"ordinary file\n" * (1 + pi), "sub\\inner.bin": bytes(range(200)) * (pi + 1), "..\\escape.txt": b"would leave the output directory\n"}
+        addp = []
+        for n, d in pfiles.items():
+            open(os.path.join(src, n), "wb").write(d)
+            addp += ["-a", os.path.join(src, n)]
+        arch = os.path.join(pdir, "p.mpq")
+        rc, so, se = run(["mpq", "create", arch, "--version", ver, "--with-listfile"] + addp)
+        res["evals"] += 1
+        if rc != 0:
+            bump("c20.preserve.create_failed")
+            continue
+        def produced(outd, n, d):
+            cands = [os.path.join(outd, *n.split("\\")), os.path.join(outd, n), os.path.join(outd, n.split("\\")[-1])]
+            return any(os.path.isfile(c) and open(c, "rb").read() == d for c in cands if os.path.realpath(c).startswith(os.path.realpath(outd) + os.sep))
+        for mode, extra, names in (("preserve", ["--preserve-paths"], []), ("preserve-explicit", ["--preserve-paths", "--threads", "1"], ["ok.txt", "..\\escape.txt"]),
+                                   ("preserve-skip", ["--preserve-paths", "--skip-errors"], []), ("flat", [], list(pfiles))):
+            outer = os.path.join(pdir, "outer-" + mode)
+            outd = os.path.join(outer, "out")
+            os.makedirs(outd)
+            rc, so, se = run(["mpq", "extract", arch, "-o", outd] + extra + (["--"] + names if names else []))
+            res["evals"] += 1
+            bump("c20.extract.%s.exit%d" % (mode, rc))
+            want = {n: pfiles[n] for n in (names or pfiles)}
+            missing = [n for n, d in want.items() if not produced(outd, n, d)]
+            if os.path.exists(os.path.join(outer, "escape.txt")):
+                res["oracle_fail"].append(("extract-writes-outside-output-directory", "%s %s: ../escape.txt created" % (ver, mode)))
+            if rc == 0 and missing and "--skip-errors" not in extra:
+                res["oracle_fail"].append(("exit0-but-output-incomplete-or-different", "%s extract %s: exit 0 but not produced: %s" % (ver, " ".join(extra), missing)))
+            if "--skip-errors" in extra:
+                if rc != 0:
+                    res["oracle_fail"].append(("skip-errors-but-nonzero-exit", "%s extract %s: exit %d" % (ver, " ".join(extra), rc)))
+                for n in ("ok.txt", "sub\\inner.bin"):
+                    if not produced(outd, n, pfiles[n]):
+                        res["oracle_fail"].append(("exit0-but-output-incomplete-or-different", "%s extract %s: %s not produced" % (ver, " ".join(extra), n)))
+            if mode == "flat" and rc == 0 and not missing:
+                res["nontrivial"] += 1
+            model_reqs.append(("c20exit extract %d 1 %d %d 0" % (1 if "--skip-errors" in extra else 0, len(want), len(missing)), str(min(rc, 1))))
     # ---- B. every format family: valid / truncated / corrupted / empty / missing input
     for kind, cmds in (("dbc", [["dbc", "info"], ["dbc", "list"], ["dbc", "analyze"]]),
                        ("wdt", [["wdt", "info"], ["wdt", "validate"], ["wdt", "tiles"], ["wdt", "tree"]]),
